@@ -66,15 +66,14 @@ def plus : UInt8 := 43
 /-- `splitRespectingQuotes(text, d)`: `q` = inQuotes, `cur` = the part being built. -/
 def splitQ (d : UInt8) : Bool → Bytes → Bytes → List Bytes
   | _, cur, [] => [cur]
-  | q, cur, [c] =>
-    if c = dq then [cur ++ [c]]
-    else if c = d ∧ q = false then [cur, []]
-    else [cur ++ [c]]                      -- includes a trailing backslash: `i+1 < len` fails
-  | q, cur, c :: e :: r =>
-    if c = dq then splitQ d (!q) (cur ++ [c]) (e :: r)
-    else if c = bs ∧ q = true then splitQ d q (cur ++ [c, e]) r
-    else if c = d ∧ q = false then cur :: splitQ d false [] (e :: r)
-    else splitQ d q (cur ++ [c]) (e :: r)
+  | q, cur, c :: r =>
+    if c = dq then splitQ d (!q) (cur ++ [c]) r
+    else if c = bs ∧ q = true then
+      match r with
+      | [] => [cur ++ [c]]                 -- `i+1 < len(text)` fails: the default branch writes it
+      | e :: r' => splitQ d q (cur ++ [c, e]) r'
+    else if c = d ∧ q = false then cur :: splitQ d false [] r
+    else splitQ d q (cur ++ [c]) r
 
 def splitRespectingQuotes (text : Bytes) (d : UInt8) : List Bytes := splitQ d false [] text
 
@@ -152,12 +151,16 @@ def keyOf (k : Bytes) : Option Key :=
   else if k = kSubject then some .subject else if k = kUri then some .uri
   else if k = kDns then some .dns else if k = kBy then some .by_ else none
 
-/-- `backslashEscape.ReplaceAllString(text, "$1")` with `backslashEscape = \\(.)`. -/
+/-- `backslashEscape.ReplaceAllString(text, "$1")` with `backslashEscape = \\(.)`: a backslash
+followed by anything but a newline is dropped and the next byte kept. -/
 def unescapeQuoted : Bytes → Bytes
   | [] => []
-  | [c] => [c]
-  | c :: e :: r =>
-    if c = bs ∧ e ≠ nl then e :: unescapeQuoted r else c :: unescapeQuoted (e :: r)
+  | c :: r =>
+    if c = bs then
+      match r with
+      | [] => [c]
+      | e :: r' => if e = nl then c :: unescapeQuoted (e :: r') else e :: unescapeQuoted r'
+    else c :: unescapeQuoted r
 
 /-- Surrounding quotes stripped and the inside unescaped, when the value is at least `""`. -/
 def stripQuotes (v : Bytes) : Bytes :=
@@ -229,16 +232,20 @@ def parseXfcc (h : Bytes) : List Elem :=
     let t := trimSpace raw
     if t.isEmpty then none else some (parseElement t)
 
+/-- A finished non-empty match of `unescapedComma`. -/
+def flush (cur : Bytes) : List Bytes := if cur.isEmpty then [] else [cur]
+
 /-- `unescapedComma.FindAllString(subject, -1)` with `unescapedComma = (?:\\.|[^,])+`:
 maximal runs of (backslash + non-newline | non-comma). -/
 def dnParts : Bytes → Bytes → List Bytes
-  | cur, [] => if cur.isEmpty then [] else [cur]
-  | cur, [c] =>
-    if c = comma then (if cur.isEmpty then [] else [cur]) else [cur ++ [c]]
-  | cur, c :: e :: r =>
-    if c = bs ∧ e ≠ nl then dnParts (cur ++ [c, e]) r
-    else if c = comma then (if cur.isEmpty then [] else [cur]) ++ dnParts [] (e :: r)
-    else dnParts (cur ++ [c]) (e :: r)
+  | cur, [] => flush cur
+  | cur, c :: r =>
+    if c = comma then flush cur ++ dnParts [] r
+    else if c = bs then
+      match r with
+      | [] => [cur ++ [c]]
+      | e :: r' => if e = nl then dnParts (cur ++ [c]) (e :: r') else dnParts (cur ++ [c, e]) r'
+    else dnParts (cur ++ [c]) r
 
 /-- `len(part) > 3 && strings.EqualFold(part[:3], "CN=")` → `part[3:]`. -/
 def cnOfPart (part : Bytes) : Option Bytes :=
